@@ -66,7 +66,7 @@ func c15Exec(ndest int, alphabet []string) func(hist []int) (string, string, str
 			// reference model
 			var buf []byte
 			closed, sockClosed := false, false
-			refused := 0 // refused writes since the last flush: implementation state the model does not have
+			refused := 0            // refused writes since the last flush: implementation state the model does not have
 			var refusedOps []string // ... and which calls they were (a refused WriteString is not a refused Write)
 			want := make([][][]byte, ndest)
 			early := make([][][]byte, ndest)
